@@ -1,6 +1,6 @@
 """JavaScript parser - produces an AST from tokens."""
 
-from typing import List, Optional, Callable
+from typing import Dict, List, Optional, Callable, Tuple
 from .lexer import Lexer
 from .tokens import Token, TokenType
 from .errors import JSSyntaxError
@@ -94,6 +94,7 @@ class Parser:
         self.lexer = Lexer(source)
         self.current: Token = self.lexer.next_token()
         self.previous: Optional[Token] = None
+        self._arrow_memo: Dict[Tuple[int, int], bool] = {}  # '(' position -> starts an arrow function
 
     def _error(self, message: str) -> JSSyntaxError:
         """Create a syntax error at current position."""
@@ -708,26 +709,35 @@ class Parser:
 
     def _is_arrow_function_params(self) -> bool:
         """Check if this is a parenthesized arrow function: () => or (a, b) => ..."""
+        key = (self.current.line, self.current.column)
+        if key in self._arrow_memo:
+            return self._arrow_memo[key]
+
         # Save state
         saved_pos = self.lexer.pos
         saved_line = self.lexer.line
         saved_column = self.lexer.column
         saved_current = self.current
 
-        is_arrow = False
+        # Scan to the matching ')' and look for '=>'. The answer for every parenthesis
+        # met on the way is remembered: nested parentheses would otherwise be scanned
+        # once per enclosing parenthesis (quadratic in the nesting depth).
+        opens = []
         try:
-            self._advance()  # (
-            # Skip to matching )
-            paren_depth = 1
-            while paren_depth > 0 and not self._is_at_end():
+            while not self._is_at_end():
                 if self._check(TokenType.LPAREN):
-                    paren_depth += 1
+                    opens.append((self.current.line, self.current.column))
+                    self._advance()
                 elif self._check(TokenType.RPAREN):
-                    paren_depth -= 1
-                self._advance()
-
-            # Check for =>
-            is_arrow = self._check(TokenType.ARROW)
+                    if not opens:
+                        break
+                    opened = opens.pop()
+                    self._advance()
+                    self._arrow_memo.setdefault(opened, self._check(TokenType.ARROW))
+                    if not opens:
+                        break
+                else:
+                    self._advance()
         except Exception:
             pass
 
@@ -737,7 +747,7 @@ class Parser:
         self.lexer.column = saved_column
         self.current = saved_current
 
-        return is_arrow
+        return self._arrow_memo.setdefault(key, False)
 
     def _parse_arrow_function_single_param(self) -> ArrowFunctionExpression:
         """Parse arrow function with single unparenthesized param."""
